@@ -14,6 +14,7 @@ import StsModel.Drv.Release
 import StsModel.Drv.Live
 import StsModel.Drv.Stop
 import StsModel.Drv.Prune
+import StsModel.Drv.Move
 namespace Sts.Drv
 
 def main (args : List String) : IO UInt32 :=
@@ -35,6 +36,7 @@ def main (args : List String) : IO UInt32 :=
   | ["live"] => run liveStep {}
   | ["stop"] => run stopStep {}
   | ["prune"] => run pruneStep {}
+  | ["fmove"] => run moveStep {}
   | ["release"] => run Rel.relStep {}
   | ["recovery"] => run Rel.relStep {}
   | ["release-orig"] => run Rel.relStep { fx := Sts.Release.Fixes.original }
